@@ -14,6 +14,8 @@
 #define      VITA_POPULATION_H
 
 #include <fstream>
+#include <new>
+#include <stdexcept>
 
 #include "kernel/environment.h"
 #include "kernel/log.h"
